@@ -62,7 +62,7 @@ MUTANTS = [
     ('C03', 'supp/nast.py', r"eend = get_expr_end\(node\.value\)\n        # the value is evaluated", "eend = np(node)\n        # the value is evaluated", 'C03-R'),
     ('C03', 'supp/scope.py', r"r\.get\(n, UndefinedName\(n\)\)", "r.get(n, None)", 'C03-R2'),
     ('C03', 'supp/scope.py', r"if len\(nrow\) == 1:", "if len(nrow) <= 2:", 'C03-R2'),
-    ('C03', 'supp/nast.py', r"self\.make_flow\('else', \[cur\]\)", "self.make_flow('else', [cur, body])", 'C03-R1'),
+    ('C03', 'supp/nast.py', r"self\.make_flow\('else', \[skipped\]\)", "self.make_flow('else', [skipped, body])", 'C03-R1'),
     ('C03', 'supp/scope.py', r"idx = bisect\(self\._names, Location\(loc\)\)", "idx = len(self._names)", 'C03-R2'),
     # ---- C04
     ('C04', 'supp/scope.py', r"        self\._resolving = True\n        loops\.append\(self\)\n        try:\n            result = self\.parent\.names\n        finally:\n            loops\.pop\(\)\n            self\._resolving = False", "        self._resolving = True\n        loops.append(self)\n        result = self.parent.names\n        loops.pop()\n        self._resolving = False", 'C04-R2'),
@@ -74,7 +74,7 @@ MUTANTS = [
     ('C04', 'supp/scope.py', r"    @region_table\n    def parent_names", "    @cached_property\n    def parent_names", 'C04-R1'),
     # the repaired while test (5f7ee5c)
     ('C01', 'supp/nast.py', r"test_start\.loop\(body\)", "body_start.loop(body)", 'C01-R5'),
-    ('C01', 'supp/nast.py', r"self\.make_flow\('while-else', \[test\]\)", "self.make_flow('while-else', [cur])", 'C01-R5'),
+    ('C01', 'supp/nast.py', r"self\.make_flow\('while-else', \[skipped\]\)", "self.make_flow('while-else', [cur])", 'C01-R5'),
     # the repaired short circuit (e81a976)
     ('C01', 'supp/nast.py', r"self\.make_flow\('boolop', \[exits\[-1\]\]\)", "self.make_flow('boolop', [exits[0]])", 'C01-R5'),
     ('C03', 'supp/nast.py', r"self\.flow = self\.make_flow\('join', exits\)", "self.flow = self.make_flow('join', exits[-1:])", 'C03-R1'),
@@ -197,8 +197,8 @@ TWINS = [
     (['C09', 'C04', 'C07'], 'supp/project.py', r"        self\._module_cache\[name\] = module\n        return module",
      "        self._module_cache[name] = module\n        self._context_cache[name] = module\n        return module"),
     (['C01', 'C02', 'C03', 'C05'], 'supp/nast.py',
-     r"        body = self\.visit_in_flow\(node\.body, self\.make_flow\('if', \[cur\]\)\)",
-     "        if_flow = self.make_flow('if', [cur])\n        body = self.visit_in_flow(node.body, if_flow)"),
+     r"        body = self\.visit_in_flow\(node\.body, self\.make_flow\('if', \[taken\]\)\)",
+     "        if_flow = self.make_flow('if', [taken])\n        body = self.visit_in_flow(node.body, if_flow)"),
     (['C02', 'C03'], 'supp/scope.py',
      r"            pnames = \[p\.names for p in self\.parents\n                      if p\.names is not UNRESOLVED\]  # type: list\[t\.Mapping\[str, Name\]\] # type: ignore\[misc\]",
      "            pnames = []\n            for p in self.parents:\n                pn = p.names\n                if pn is not UNRESOLVED:\n                    pnames.append(pn)"),
